@@ -109,7 +109,12 @@ func callArgs(ci ssa.CallInstruction) []ssa.Value {
 // value provenance
 
 // strip removes representation-only wrappers.
-func strip(v ssa.Value) ssa.Value {
+func strip(v ssa.Value) ssa.Value { return stripD(v, 0) }
+
+func stripD(v ssa.Value, depth int) ssa.Value {
+	if depth > 8 {
+		return v
+	}
 	for {
 		switch x := v.(type) {
 		case *ssa.ChangeInterface:
@@ -125,7 +130,10 @@ func strip(v ssa.Value) ssa.Value {
 			var u ssa.Value
 			same := true
 			for _, e := range x.Edges {
-				e = strip(e)
+				if e == ssa.Value(x) {
+					continue
+				}
+				e = stripD(e, depth+1)
 				if u == nil {
 					u = e
 				} else if u != e {
